@@ -138,6 +138,7 @@ def run_ns(stage, uid, user=None, euid=None, by_name=False, no_out=False, xdg_ru
 
 
 def oracle(ctx):
+    core.io_inventory_obligation(ctx.res, ('read', 'metadata'))
     res = ctx.res
     rnd = ctx.rnd
     if not ns_available():
